@@ -59,3 +59,62 @@ Proof.
   destruct (back_run (o_api fo) nc fs0) as [[[data s] fs]|]; cbn [bind]; [|discriminate].
   intro H. inversion H; subst; clear H. cbn [out_api]. apply front_modules_are_filtered. exact EF.
 Qed.
+
+(* ======================================================================================================== *)
+(* C06 end to end: a literal default of the Python signature is written with the same value                    *)
+(* ======================================================================================================== *)
+From SV Require Import Model.FrontSmall Proofs.FrontProofs.
+
+(* the Safe-DS spelling of a Python literal default *)
+Definition literal_text (v : pyval) : str :=
+  match v with
+  | None => K"null"
+  | Some (DInt z) => Z_dec z
+  | Some (DFloat r) => r
+  | Some (DBool true) => K"true"
+  | Some (DBool false) => K"false"
+  | Some (DStr s) => requote_default s
+  | Some DNone => K"null"
+  | Some DUnknown => K"unknown"
+  end.
+
+Lemma requote_quoted s : requote_default (quote_str s) = quoted (escape_string_content s).
+Proof.
+  unfold requote_default, quote_str. rewrite rev_app_distr. cbn [rev app]. rewrite Ascii.eqb_refl. cbn [andb]. rewrite rev_involutive. reflexivity.
+Qed.
+
+Theorem literal_default_end_to_end env d st f fid a p tv lg amb e v s :
+  parse_parameter env d st f fid a = Ok (p, tv, lg, amb) -> ar_init a = Some e -> signed_literal e = Some v ->
+  p_assigned p <> POSITIONAL_VARARG ->
+  p_optional p = true /\ render_default p s = Ok (literal_text v, s) /\
+  (forall x, e = EStr x -> literal_text v = quoted (escape_string_content x)).
+Proof.
+  intros HP HI HS HV. destruct (parse_parameter_shape _ _ _ _ _ _ _ _ _ _ HP) as [_ [_ [_ [HO HD]]]].
+  specialize (HD e v HI HS). split; [|split].
+  - apply HO. exists e. split; [exact HI|]. rewrite (default_of_literal fid e v HS). cbn. destruct v; [left; discriminate|right; reflexivity].
+  - unfold render_default. rewrite HD. destruct v as [dv|]; [destruct dv as [|x|b|z|r|]|]; cbn [dval_of_pyval literal_text]; try reflexivity.
+    + destruct (p_assigned p); try reflexivity. exfalso. apply HV. reflexivity.
+    + (* an unknown value is never the image of a literal *)
+      exfalso. clear -HS. destruct e; cbn in HS; try discriminate;
+        repeat (match goal with H : context [if ?b then _ else _] |- _ => destruct b end; try discriminate);
+        try (destruct e; cbn in HS; try discriminate; repeat (match goal with H : context [if ?b then _ else _] |- _ => destruct b end; try discriminate)).
+  - intros x Hx. subst e. cbn in HS. inversion HS; subst. cbn. apply requote_quoted.
+Qed.
+
+(* ======================================================================================================== *)
+(* C07 end to end: a function annotated "-> None" is written without results                                  *)
+(* ======================================================================================================== *)
+From SV Require Import Proofs.MoreProofs.
+
+Theorem none_annotation_end_to_end classes rmap nc env f fid rdocs u rs amb s :
+  str_eqb (fn_name f) (K"__init__") = false -> fn_type f = Some (FRet MNone u) ->
+  parse_results env f fid rdocs = Ok (rs, amb) ->
+  result_string classes rmap nc rs s = Ok ([], s).
+Proof.
+  intros NI FT HP.
+  assert (A : annotated f = Some (MNone, u)) by (unfold annotated; rewrite FT; reflexivity).
+  destruct (annotated_results env f fid rdocs MNone u rs amb NI A HP) as [t [a [E [HT _]]]].
+  inversion E; subst t a. cbn in HT.
+  destruct rs as [|r [|r2 rest]]; cbn in HT; try discriminate. inversion HT as [HR].
+  eapply annotated_none_no_results; [exact HR|reflexivity].
+Qed.
